@@ -34,6 +34,7 @@ type SrvScenario struct {
 	Admin     []string   `json:"admin"`                // close | shutdown | cancel | close2 | shutdown2
 	Gates     []string   `json:"gates,omitempty"`      // backend steps that are scheduling points: enter read status return
 	Locks     bool       `json:"locks,omitempty"`      // Lock() calls are scheduling points
+	Listeners int        `json:"listeners,omitempty"`  // 2: a second listener on the same server
 	Plan      string     `json:"plan,omitempty"`       // backend behaviour: "" read all & accept | "noread" never reads (returns when the reader fails) | "statuses" | "earlyreturn" (LMTP: statuses, then return without reading)
 	Chunked   bool       `json:"chunked,omitempty"`    // every transfer of the scenario is chunked (BDAT)
 	ByContent bool       `json:"by_content,omitempty"` // the message's first line decides the verdict (accept…/reject…)
@@ -119,6 +120,10 @@ type srvWorld struct {
 	ctx           context.Context
 	permGiven     bool
 	lnClosedByApp bool
+	// a second listener served by the same server (scenario.Listeners == 2): it accepts nothing, it only has to be
+	// closed, and its Serve has to return, when the server is closed or shut down
+	ln2        *fakeListener
+	serve2Done bool
 }
 
 func (w *srvWorld) Start(x *h.Exec) {
@@ -140,6 +145,12 @@ func (w *srvWorld) Start(x *h.Exec) {
 	case "noread":
 		// a backend that does not read: it waits until told (gate) and returns what the reader then says
 		w.be.Plan = func(int) h.DataPlan { return h.DataPlan{Max: 0, KeepErr: true} }
+	case "reject":
+		// reads the message, sets no status, reports through its return value
+		w.be.Plan = func(int) h.DataPlan { return h.DataPlan{Max: -1, Verdict: h.RejErr("message")} }
+	case "panic-when-done":
+		// reads until the reader ends - with the end of the message or with the error of an aborted transfer -, then panics
+		w.be.Plan = func(int) h.DataPlan { return h.DataPlan{Max: -1, Panic: true, KeepErr: true} }
 	case "earlyreturn":
 		// a per-recipient backend that reports every recipient and returns without reading the message: the server
 		// has to skip the rest of the message itself, before it goes back to reading commands
@@ -165,6 +176,15 @@ func (w *srvWorld) Start(x *h.Exec) {
 		w.serveErr = w.srv.Serve(w.ln)
 		w.serveDone = true
 	}()
+	if sc.Listeners == 2 {
+		h.Wait() // the first listener is registered first
+		w.ln2 = &fakeListener{w: w, ch: make(chan interface{}), closed: make(chan struct{})}
+		go func() {
+			w.srv.Serve(w.ln2)
+			w.serve2Done = true
+		}()
+		h.Wait()
+	}
 }
 
 func (w *srvWorld) Events() []h.SchedEvent {
@@ -372,6 +392,14 @@ func (w *srvWorld) Finish(x *h.Exec) *h.Finding {
 			return h.F("c20-conn-not-closed", "%s: connection %d was never closed by the server", desc, ci)
 		}
 	}
+	if w.ln2 != nil && anyStop {
+		w.ln2.mu.Lock()
+		closed2 := w.ln2.isClosed
+		w.ln2.mu.Unlock()
+		if !closed2 || !w.serve2Done {
+			return h.F("c20-second-listener", "%s: after Close/Shutdown the second listener is closed=%t and its Serve has returned=%t (a listener whose Close fails must not keep the others open)", desc, closed2, w.serve2Done)
+		}
+	}
 	// Not judged here: a recovered panic in the command loop. Server.Close logs the session out and
 	// clears it while the command loop may be between two statements of a handler; the handler then
 	// dereferences a nil session, which is recovered (421, connection closed). C20's statement does not
@@ -452,6 +480,20 @@ func c20Scenarios(tier string) []SrvScenario {
 		out = append(out, SrvScenario{Name: "F2-lmtp-" + strings.Fields(tail[0])[0] + "-" + strings.TrimSpace(strings.ReplaceAll(tail[len(tail)-1], "<EOF>", "disconnect")), LMTP: true, Accepts: []string{"conn"}, Clients: [][]string{append([]string{lm}, tail...)}, Admin: []string{"close"}, Gates: []string{"status", "return"}, Plan: "statuses"})
 	}
 	out = append(out, SrvScenario{Name: "F2-lmtp-DATA-backend-returns-early", LMTP: true, Accepts: []string{"conn"}, Clients: [][]string{{lm, "DATA\r\n", "line one\r\n", "NOOP\r\nline three\r\n", ".\r\n", "QUIT\r\n"}}, Admin: []string{"close"}, Gates: []string{"return"}, Plan: "earlyreturn"})
+	// the same mailbox twice, a backend that reports through its return value only: every RCPT still gets its reply
+	lmDup := "LHLO c.example\r\nMAIL FROM:<ok@a.example>\r\nRCPT TO:<ok1@b.example>\r\nRCPT TO:<ok1@b.example>\r\n"
+	for _, tail := range [][]string{{"BDAT 4 LAST\r\nmsg\n", "QUIT\r\n"}, {"DATA\r\n", "msg\r\n.\r\n", "QUIT\r\n"}, {"BDAT 2\r\nms", "BDAT 2 LAST\r\ng\n", "QUIT\r\n"}} {
+		out = append(out, SrvScenario{Name: "F2-lmtp-duplicate-rcpt-return-value-" + strings.Fields(tail[0])[0] + fmt.Sprint(len(tail)), LMTP: true, Accepts: []string{"conn"}, Clients: [][]string{append([]string{lmDup}, tail...)}, Admin: []string{"close"}, Gates: []string{"return"}, Plan: "reject", Chunked: tail[0][0] == 'B'})
+	}
+	// the backend panics when its reader ends - also when it ends because the transfer was aborted
+	for _, next := range [][]string{{"RSET\r\n"}, {"QUIT\r\n"}, {"<EOF>"}, {"BDAT 3 LAST\r\nabc"}} {
+		name := strings.Fields(strings.ReplaceAll(next[0], "<EOF>", "disconnect"))[0]
+		out = append(out, SrvScenario{Name: "F1-bdat-backend-panics-when-reader-ends-" + name, Accepts: []string{"conn"}, Clients: [][]string{append([]string{chunk}, next...)}, Admin: []string{"close"}, Gates: []string{"return"}, Plan: "panic-when-done", Chunked: true})
+	}
+	// two listeners; the application has closed the first one itself, so its Close fails when the server stops
+	out = append(out, SrvScenario{Name: "F3-two-listeners-first-closed-by-app-then-close", Listeners: 2, Accepts: []string{"conn"}, Clients: [][]string{{"EHLO c.example\r\n"}}, Admin: []string{"lnclose", "close"}})
+	out = append(out, SrvScenario{Name: "F3-two-listeners-first-closed-by-app-then-shutdown", Listeners: 2, Accepts: []string{"conn"}, Clients: [][]string{{"EHLO c.example\r\n", "QUIT\r\n"}}, Admin: []string{"lnclose", "shutdown"}})
+	out = append(out, SrvScenario{Name: "F3-two-listeners-close", Listeners: 2, Accepts: []string{"conn"}, Clients: [][]string{{"EHLO c.example\r\n"}}, Admin: []string{"close", "close2"}})
 	// F3: Shutdown with one or two active connections
 	out = append(out, SrvScenario{Name: "F3-shutdown-1conn-quit", Accepts: []string{"conn"}, Clients: [][]string{{"EHLO c.example\r\n", "QUIT\r\n"}}, Admin: []string{"shutdown", "close2"}})
 	out = append(out, SrvScenario{Name: "F3-shutdown-1conn-cancel", Accepts: []string{"conn"}, Clients: [][]string{{"EHLO c.example\r\n", "<EOF>"}}, Admin: []string{"shutdown", "cancel", "shutdown2"}})
@@ -638,7 +680,7 @@ func C20(tier string) int {
 	if tier == "thorough" {
 		lockBound, f7Bound = 3, 5
 	}
-	run.Rule = fmt.Sprintf("schedule exploration (testing/synctest bubbles, go-smtp built with channel-based mutexes via build overlay so that every blocked goroutine is visible): %d scenarios - F1 chunked transfer with a slow or non-reading backend followed by {RSET, LAST chunk, RSET+next transaction, QUIT, disconnect} with Server.Close fired at ANY point; F2 LMTP DATA/BDAT with a slow per-recipient backend + Close/disconnect; F3 Shutdown(ctx) with one/two connections and {QUIT, disconnect, ctx cancel, second Close/Shutdown}, Close/Shutdown after the application closed the listener itself (the listener's Close then fails); F6 Close/Shutdown while the command loop is inside NewSession/Mail/Rcpt; F7 two connections mid-BDAT with Close/Shutdown (deviation-bounded); F8 LMTP two-chunk transfer with gated status calls + Close; F4 ALL sequences of <=%d Accept answers over {temporary error, connection, permanent error} with the virtual clock; events = Accept answers, client segments/disconnect, backend steps, admin calls, clock. F1-F4: ALL interleavings. F5: F1/F3/F4 representatives with every Lock() as an additional scheduling point, deviation (preemption) bound %d. states = scenarios, transitions = scheduling decisions, traces = executions of the real server. Oracle per execution: no goroutine left behind (runtime check at bubble exit), Serve returns (nil after Close/Shutdown, the permanent error otherwise, never on temporary errors), every accepted connection closed once Close has run, first Close/Shutdown returns nil / ctx error, later ones ErrServerClosed, one Logout per session and nothing after it, no recovered panic. The data-race clause is decided by free-running -race replays (see coverage.race).", len(scs), map[bool]int{true: 5, false: 4}[tier == "thorough"], lockBound)
+	run.Rule = fmt.Sprintf("schedule exploration (testing/synctest bubbles, go-smtp built with channel-based mutexes via build overlay so that every blocked goroutine is visible): %d scenarios - F1 chunked transfer with a slow or non-reading backend followed by {RSET, LAST chunk, RSET+next transaction, QUIT, disconnect} with Server.Close fired at ANY point; F2 LMTP DATA/BDAT with a slow per-recipient backend + Close/disconnect, a duplicated recipient with a backend reporting through its return value, a backend that returns early; F1' a backend that panics when its reader ends (also by an abort); F3 Shutdown(ctx) with one/two connections and {QUIT, disconnect, ctx cancel, second Close/Shutdown}, Close/Shutdown after the application closed the listener itself (the listener's Close then fails), also with a second listener that must be closed all the same; F6 Close/Shutdown while the command loop is inside NewSession/Mail/Rcpt; F7 two connections mid-BDAT with Close/Shutdown (deviation-bounded); F8 LMTP two-chunk transfer with gated status calls + Close; F4 ALL sequences of <=%d Accept answers over {temporary error, connection, permanent error} with the virtual clock; events = Accept answers, client segments/disconnect, backend steps, admin calls, clock. F1-F4: ALL interleavings. F5: F1/F3/F4 representatives with every Lock() as an additional scheduling point, deviation (preemption) bound %d. states = scenarios, transitions = scheduling decisions, traces = executions of the real server. Oracle per execution: no goroutine left behind (runtime check at bubble exit), Serve returns (nil after Close/Shutdown, the permanent error otherwise, never on temporary errors), every accepted connection closed once Close has run, first Close/Shutdown returns nil / ctx error, later ones ErrServerClosed, one Logout per session and nothing after it, no recovered panic. The data-race clause is decided by free-running -race replays (see coverage.race).", len(scs), map[bool]int{true: 5, false: 4}[tier == "thorough"], lockBound)
 	run.Assumptions = []string{"stretches of execution between two scheduling points run under the Go scheduler; they are assumed to commute unless the race detector says otherwise", "admin events are generated only after Serve has called Accept once (C20 speaks about ending a running Serve)"}
 	h.ParallelFor(len(scs), func(i int) {
 		if run.Expired() {
